@@ -509,6 +509,34 @@ fn layer2_mode_aliasing(rep: &Report, env: &Env, flags: &[RFlags]) {
     loc.flush(rep);
 }
 
+/// every ordered triple of locks inside each after/before family (82+86, 80+84, 83+87, 81+85): the
+/// impossible-constraint rule and the max/min folds with two locks of the same kind
+fn layer2_lock_triples(rep: &Report, env: &Env, flags: &[RFlags]) {
+    let s2 = sigma2(env);
+    let mut cases: Vec<(String, Sx)> = Vec::new();
+    for (after, before) in [(82u8, 86u8), (80, 84), (83, 87), (81, 85)] {
+        let fam: Vec<&(String, Sx)> = s2.iter().filter(|(n, _)| *n == format!("op{after}") || *n == format!("op{before}")).collect();
+        for x in &fam {
+            for y in &fam {
+                for z in &fam {
+                    cases.push((format!("{}+{}+{}", x.0, y.0, z.0), Sx::list(&[x.1.clone(), y.1.clone(), z.1.clone()])));
+                }
+            }
+        }
+    }
+    rep.extra("layer2_lock_triples", json!(cases.len()));
+    cases.par_chunks(128).for_each(|chunk| {
+        let mut loc = Local::new();
+        for (tag, conds) in chunk {
+            let out = output(&[spend(&P1, &PH1, 5, conds.clone())]);
+            for f in flags {
+                case(rep, &mut loc, env, "L2k", tag, &out, *f);
+            }
+        }
+        loc.flush(rep);
+    });
+}
+
 /// bundle-level totals: 1..3 spends whose amounts, created amounts and reserved fees are taken from
 /// the u64 boundary set, so that removed - added and the fee total cross 2^64 (128-bit sums in the rules)
 fn layer2_totals(rep: &Report, env: &Env, flags: &[RFlags]) {
@@ -594,7 +622,7 @@ fn layer4(rep: &Report, env: &Env) {
 
 fn run(rep: &Report) {
     let env = drive::env();
-    rep.set_rule("generator outputs in four layers x flag subsets of {NO_UNKNOWN_CONDS, STRICT_ARGS_COUNT, COST_CONDITIONS} x {EmptyVisitor, MempoolVisitor} (signatures not validated): L1 = one condition: 52 opcode atoms x every argument list of length <= 2 (quick) / <= 3 (thorough) over 27 universal letters x {nil, 01} terminator; L1m = SEND/RECEIVE x all 64 modes + 6 malformed modes x 3 message sizes x type-correct commitment with every single off-type substitution, missing/extra argument; L1i = 13 integer conditions x 17 integer atoms x {no extra arg, extra, nil extra}, CREATE_COIN x 3 puzzle hashes x 17 amounts x 11 memo shapes x tail x terminator, 17 spend amount atoms; L2 = spend A with every ordered list of <= 2 of the interaction letters, alone or with B (child, listed after or before A) / C (same puzzle hash) / D (double spend) carrying <= 1 letter (thorough: + every ordered triple over one representative letter per condition kind); L2x = a coin with parent id = puzzle hash messaging itself under every pair of source modes (mode bits are part of the commitment); L2s = every list of 1..2 (thorough: 3) spends over amount {0,1,1000,2^63,2^64-1} x RESERVE_FEE {none,1,5000,2^64-1} x CREATE_COINs {none; 1; 2^64-1; 2^64-1 twice; 2^64-1 twice + 1} (bundle totals and a single spend's outputs crossing 2^64); L3 = structural defects at the 5 list positions; L4 = 1023/1024/1025 announcements, 5999/6000/6001 spends with LIMIT_SPENDS. distinct = distinct accepted reference summaries under the empty flag set.");
+    rep.set_rule("generator outputs in four layers x flag subsets of {NO_UNKNOWN_CONDS, STRICT_ARGS_COUNT, COST_CONDITIONS} x {EmptyVisitor, MempoolVisitor} (signatures not validated): L1 = one condition: 52 opcode atoms x every argument list of length <= 2 (quick) / <= 3 (thorough) over 27 universal letters x {nil, 01} terminator; L1m = SEND/RECEIVE x all 64 modes + 6 malformed modes x 3 message sizes x type-correct commitment with every single off-type substitution, missing/extra argument; L1i = 13 integer conditions x 17 integer atoms x {no extra arg, extra, nil extra}, CREATE_COIN x 3 puzzle hashes x 17 amounts x 11 memo shapes x tail x terminator, 17 spend amount atoms; L2 = spend A with every ordered list of <= 2 of the interaction letters, alone or with B (child, listed after or before A) / C (same puzzle hash) / D (double spend) carrying <= 1 letter (thorough: + every ordered triple over one representative letter per condition kind); L2x = a coin with parent id = puzzle hash messaging itself under every pair of source modes (mode bits are part of the commitment); L2s = every list of 1..2 (thorough: 3) spends over amount {0,1,1000,2^63,2^64-1} x RESERVE_FEE {none,1,5000,2^64-1} x CREATE_COINs {none; 1; 2^64-1; 2^64-1 twice; 2^64-1 twice + 1} (bundle totals and a single spend's outputs crossing 2^64); L2k = every ordered triple of locks inside each after/before family (82+86, 80+84, 83+87, 81+85; 6 values each); L3 = structural defects at the 5 list positions; L4 = 1023/1024/1025 announcements, 5999/6000/6001 spends with LIMIT_SPENDS. distinct = distinct accepted reference summaries under the empty flag set.");
     rep.assume("reference model mc::refcond implements DESIGN.md Appendix A; valid public keys are exactly the harness's three keys (other 48-byte letters are the infinity encoding and an off-curve string, self-checked at start)");
     rep.assume("only accept/reject, the canonical summary and the condition cost are compared, never error codes");
     let flags = all_rflags(&[false, true], false);
@@ -611,6 +639,7 @@ fn run(rep: &Report) {
     layer2(rep, &env, &l2flags);
     layer2_mode_aliasing(rep, &env, &flags);
     layer2_totals(rep, &env, &l2flags);
+    layer2_lock_triples(rep, &env, &l2flags);
     layer3(rep, &env, &flags);
     layer4(rep, &env);
 }
